@@ -101,7 +101,14 @@ pub struct SimStream<M> {
     pub link: Link<M>,
     sleep: Option<Pin<Box<tokio::time::Sleep>>>,
     polls_after_end: u32,
+    pending_polls: u32,
+    pending_polls_at_seq: u64,
 }
+
+/// Polling an open, empty stream this many times in a row while nothing at all happens on any link
+/// of the run is a busy loop in the code under test (a poll loop that never returns `Pending` to
+/// its executor).
+pub const PENDING_SPIN_LIMIT: u32 = 2_000_000;
 
 /// Polling a finished stream this many times in a row without anything else happening is a busy
 /// loop in the code under test (it would spin on the simulator thread forever).
@@ -141,7 +148,7 @@ pub fn link<M: Clone>(name: &'static str, cfg: LinkConfig) -> (SimSink<M>, SimSt
         tamper: None,
         name,
     }));
-    (SimSink { link: st.clone() }, SimStream { link: st, sleep: None, polls_after_end: 0 })
+    (SimSink { link: st.clone() }, SimStream { link: st, sleep: None, polls_after_end: 0, pending_polls: 0, pending_polls_at_seq: 0 })
 }
 
 impl<M> LinkState<M> {
@@ -347,6 +354,21 @@ impl<M: Unpin> Stream for SimStream<M> {
         c.rx_blocked_empty = true;
         c.rx_waker = Some(cx.waker().clone());
         stepexec::mark_parked();
+        // Spin detection: count polls of the empty stream during which no send / delivery happened
+        // anywhere (the global sequence number did not move).
+        let seq_now = SEQ.with(|s| s.get());
+        if seq_now == this.pending_polls_at_seq {
+            this.pending_polls += 1;
+            if this.pending_polls > PENDING_SPIN_LIMIT {
+                let name = c.name;
+                drop(c);
+                crate::ctx::violation("busy-loop", "empty message stream polled again and again without yielding to the executor", format!("stream {name} was polled {PENDING_SPIN_LIMIT} times in a row while nothing else happened"));
+                panic!("SIM-ABORT busy loop on empty stream {name}");
+            }
+        } else {
+            this.pending_polls_at_seq = seq_now;
+            this.pending_polls = 0;
+        }
         Poll::Pending
     }
 }
